@@ -392,7 +392,7 @@ class CallMixin:
         if captured:
             env.update(captured)        # a local closure reads the variables of its defining scope
         saved = (st.env, self.cur_fn, self.cur_mod, self.loop_ordinals, self.cur_contract, st.yielded)
-        caller_loop_ghosts = {k: v for k, v in st.ghost.items() if k.startswith("loop") and k[4:5].isdigit()}
+        caller_loop_ghosts = {k: v for k, v in st.ghost.items() if isinstance(k, str) and k.startswith("loop") and k[4:5].isdigit()}
         try:
             self.cur_mod = mod
             for i, n in enumerate(names):
@@ -441,8 +441,8 @@ class CallMixin:
             for f in finals:
                 f.env = saved[0] if f is st else dict(saved[0])
                 # ghost markers of the caller's loops (keyed by loop ordinal) must not be overwritten by the helper's own loops
-                if caller_loop_ghosts or any(k.startswith("loop") and k[4:5].isdigit() for k in f.ghost):
-                    g = {k: v for k, v in f.ghost.items() if not (k.startswith("loop") and k[4:5].isdigit())}
+                if caller_loop_ghosts or any(isinstance(k, str) and k.startswith("loop") and k[4:5].isdigit() for k in f.ghost):
+                    g = {k: v for k, v in f.ghost.items() if not (isinstance(k, str) and k.startswith("loop") and k[4:5].isdigit())}
                     g.update(caller_loop_ghosts)
                     f.ghost = g
                 if f.status == "raise":
